@@ -156,8 +156,10 @@ def indexed_inv(R):
     def inv(wp):
         i, n = wp.env['i'].t, wp.env['indices_size'].t
         return [('0 <= i <= indices.size()', f'(and (<= 0 {i}) (<= {i} {n}) (= {n} {wp.dim("indices", 0)}))'),
-                ('rows 0 .. i-1 of the output have been written, one copy each', f'(= {wp.env["ghost.rows"].t} {i})')]
-    inv.havoc = ['ghost.rows', 'ghost.dst', 'ghost.src', 'ghost.len', 'ghost.idx', 'ghost.idx_pos', 'ghost.cell']
+                ('rows 0 .. i-1 of the output have been written, one copy each', f'(= {wp.env["ghost.rows"].t} {i})'),
+                ('gather_rows: every output row below i holds row indices(row) of this tensor (ghost position)',
+                 f'(=> (and (<= 0 {wp.G}) (< {wp.G} {i})) (= {wp.env["ghost.gsrc"].t} {wp.IG}))')]
+    inv.havoc = ['ghost.rows', 'ghost.dst', 'ghost.src', 'ghost.len', 'ghost.idx', 'ghost.idx_pos', 'ghost.cell', 'ghost.gsrc']
     inv.decreases = lambda wp, env: f'(- {env["indices_size"].t} {env["i"].t})'
 
     def body_post(wp, e0, e1):
@@ -180,9 +182,23 @@ def on_access_indexed(wp, tid, i, n):
     wp.oblige('index list read in range: 0 <= i < indices.size()', f'(and (<= 0 {i}) (< {i} {wp.dim("indices", 0)}))', n)
     v = wp.fresh('Int', 'index_value', 'long')
     wp.assume(f'(and (<= 0 {v.t}) (< {v.t} {wp.dim("self", 0)}))')
+    # the index list is constant: a FUNCTION of the position (the value at the ghost position is IG; equal positions, equal values)
+    for p, w in [(wp.G, wp.IG)] + list(wp.idx_reads):
+        wp.facts.append(f'(=> (= {i} {p}) (= {v.t} {w}))')
+    wp.idx_reads.append((i, v.t))
     wp.ghost_set('ghost.idx', v.t)
     wp.ghost_set('ghost.idx_pos', i)
     return v
+
+
+def setup_gather(wp):
+    """the three indexed overloads: index-list reads are tracked, row copies update the ghost "output row G holds source row ..";
+    the asserted precondition indices.min() >= 0 && indices.max() < size<0>() at the ghost position"""
+    wp.on_access = on_access_indexed
+    wp.track_gather = True
+    wp.assume(f'(=> (and (<= 0 {wp.G}) (< {wp.G} {wp.dim("indices", 0)})) (and (<= 0 {wp.IG}) (< {wp.IG} {wp.dim("self", 0)})))')
+    # ... and on a non-empty list it implies that this tensor has rows at all (0 <= indices.min() <= indices.max() < size<0>())
+    wp.assume(f'(=> (> {wp.dim("indices", 0)} 0) (> {wp.dim("self", 0)} 0))')
 
 
 def build():
@@ -288,24 +304,26 @@ def build():
         # ---------------------------------------------------------------------------- tensor.h: index gather
         def post_indexed_map(wp, rv):
             n = wp.dim('indices', 0)
-            return [('every row i < indices.size() of the output has been written, one copy each', f'(= {wp.env["ghost.rows"].t} {n})')]
+            return [('every row i < indices.size() of the output has been written, one copy each', f'(= {wp.env["ghost.rows"].t} {n})')] + \
+                tmodel.gather_clause(wp, 'subtensor')
 
         def setup_indexed_map(wp):
             # the assert in the code: subtensor.dims() == (indices.size(), dims[1..])
             want = tmodel.expected_indexed_dims(wp, 'self', 'indices')
             for a, b in zip(wp.elems('subtensor.m_dims'), want):
                 wp.assume(f'(= {a} {b})')
-            wp.on_access = on_access_indexed
+            setup_gather(wp)
         add(run_fn(f'tensor_t<{R}>::indexed(indices, map)', 'indexed', msel(tens_rx(R, 'indexed', True) + r'IdEEvNS0_INS_23tensor_carray_storage_tElLm1EEENS0_INS_23tensor_marray'),
                    T, R, setup_indexed_map, post_indexed_map, 'index gather into a mapped tensor', invariants={1: indexed_inv(R)}))
 
         def post_indexed_mem(wp, rv):
             want = tmodel.expected_indexed_dims(wp, 'self', 'indices')
             return eq_terms('subtensor.dims() == (indices.size(), dims[1..]) EXACTLY', wp.elems('subtensor.m_dims'), want) + \
-                [('every row of the output has been written', f'(= {wp.env["ghost.rows"].t} {wp.dim("indices", 0)})')]
+                [('every row of the output has been written', f'(= {wp.env["ghost.rows"].t} {wp.dim("indices", 0)})')] + tmodel.gather_clause(wp, 'subtensor')
         def setup_indexed_alloc(wp):
             # the gathered tensor must itself be a valid tensor: indices.size() * P_1 <= 2^62 (indices may repeat rows)
             wp.assume(f'(<= (* {wp.dim("indices", 0)} {wp.P0[1]}) {BOUND})')
+            setup_gather(wp)
         add(run_fn(f'tensor_t<{R}>::indexed(indices, mem&)', 'indexed', msel(tens_rx(R, 'indexed', True) + r'IdEEvNS0_INS_23tensor_carray_storage_tElLm1EEERNS0_'),
                    T, R, setup_indexed_alloc, post_indexed_mem, 'index gather into an owning tensor (resized)'))
 
@@ -314,7 +332,7 @@ def build():
                 return [('returns a tensor', 'false')]
             want = tmodel.expected_indexed_dims(wp, 'self', 'indices')
             return eq_terms('result.dims() == (indices.size(), dims[1..]) EXACTLY', wp.elems(wp.tens[rv.t]['dims']), want) + \
-                [('every row of the result has been written', f'(= {wp.env["ghost.rows"].t} {wp.dim("indices", 0)})')]
+                [('every row of the result has been written', f'(= {wp.env["ghost.rows"].t} {wp.dim("indices", 0)})')] + tmodel.gather_clause(wp, rv.t)
         add(run_fn(f'tensor_t<{R}>::indexed(indices)', 'indexed', msel(tens_rx(R, 'indexed', True) + r'IdEEDaNS0_'), T, R, setup_indexed_alloc, post_indexed_ret,
                    'index gather returning a new tensor'))
 
